@@ -83,9 +83,8 @@ def real_cases(ctx, rng, nseeds):
                 if pyhmac.new(b"Bitcoin seed", seed, hashlib.sha512).digest()[0 if si == 1 else 32] == 0:
                     break
         net = ["mainnet", "testnet", "signet", "regtest"][si % 4]
-        calls = []
-        orig = hd.hmac_sha512
-        hd.hmac_sha512 = lambda key, msg: (calls.append((bytes(key), bytes(msg))), orig(key, msg))[1]
+        # certified HMAC-SHA512 rows are produced here for the inputs BIP32 prescribes (not recorded from the library's calls)
+        calls = [(b"Bitcoin seed", seed)]
         try:
             root = hd.HDPrivateKey.from_seed(seed, network=net)
             cases.append({"id": "m%d" % si, "kind": "master", "seed": B(seed), "k": le(root.private_key.secret), "chain": B(root.chain_code), "depth": root.depth,
@@ -102,6 +101,7 @@ def real_cases(ctx, rng, nseeds):
                             idx = cand
                             break
                 del calls[:]
+                calls.append((node.chain_code, (b"\x00" + node.private_key.secret.to_bytes(32, "big") if idx >= 2 ** 31 else node.private_key.point.sec()) + idx.to_bytes(4, "big")))
                 if (si + step) % 2 == 1:
                     # other queries on the same key objects first (uncompressed forms, addresses): derivation must not depend on them
                     outcome(node.private_key.point.hash160, False)
@@ -132,7 +132,7 @@ def real_cases(ctx, rng, nseeds):
                     break
                 node = ch[1]
         finally:
-            hd.hmac_sha512 = orig
+            pass
         # serialisation with every version prefix
         for fam, vers in VERSIONS.items():
             private = fam.startswith("prv")
